@@ -110,6 +110,7 @@ func newV1(prefix string, ct *Controllers) (cg Cgroup, err error) {
 	if err = loopV1Controllers(ct, v1, func(name string, cg **v1controller) error {
 		path, err := CreateV1ControllerPath(name, prefix)
 		*cg = newV1Controller(path)
+		v1.ctrls = append(v1.ctrls, *cg)
 		if errors.Is(err, os.ErrExist) {
 			if len(v1.all) == 0 {
 				v1.existing = true
@@ -204,6 +205,7 @@ func openExistingV1(prefix string, ct *Controllers) (cg Cgroup, err error) {
 			return err
 		}
 		v1.all = append(v1.all, *cg)
+		v1.ctrls = append(v1.ctrls, *cg)
 		return nil
 	}); err != nil {
 		return
